@@ -126,7 +126,7 @@ def explore(res, scale=1, seed=None):
             model[i] = m
         rows_m, model_m = [], []
         for (c, g, o), m in zip(rows, model):
-            if g != "-" and m != "-" and " fail " in " " + g + " ":
+            if g != "-" and m != "-" and "fail" in g:
                 m, g = unreset(c, m, g)
             rows_m.append((c, masked(m, g), o))
             model_m.append(m)
